@@ -37,11 +37,15 @@
 '''Contains the PSyData transformation.
 '''
 
+from fparser.two import Fortran2003
+from fparser.two.utils import Base, BlockBase, StmtBase, walk
+
 from psyclone.configuration import Config
 from psyclone.errors import InternalError
 from psyclone.psyGen import InvokeSchedule, Kern
 from psyclone.psyir.nodes import PSyDataNode, Schedule, Return, \
-    OMPDoDirective, ACCDirective, ACCLoopDirective, Routine
+    OMPDoDirective, ACCDirective, ACCLoopDirective, Routine, CodeBlock, \
+    Loop, WhileLoop
 from psyclone.psyir.transformations.region_trans import RegionTrans
 from psyclone.psyir.transformations.transformation_error \
     import TransformationError
@@ -234,6 +238,8 @@ class PSyDataTrans(RegionTrans):
         :raises TransformationError: if there will be a name clash between \
             any existing symbols and those that must be imported from the \
             appropriate PSyData library.
+        :raises TransformationError: if control can leave or enter the \
+            region other than through its last or first statement.
 
         '''
         # pylint: disable=too-many-branches
@@ -296,6 +302,119 @@ class PSyDataTrans(RegionTrans):
                     pass
 
         super().validate(node_list, my_options)
+
+        self._validate_control_flow(node_list)
+
+    # ------------------------------------------------------------------------
+    def _validate_control_flow(self, node_list):
+        '''
+        Checks that execution can only enter the proposed region through its
+        first statement and leave it through its last one. Otherwise the
+        PSyData calls that open and close the region would not be executed
+        in matching pairs. Return nodes are excluded by type. All other
+        statements that transfer control (EXIT, CYCLE, GOTO, computed GOTO
+        and arithmetic IF) and all statement labels are only found inside
+        CodeBlocks.
+
+        :param node_list: the nodes that will be enclosed in the region.
+        :type node_list: list[:py:class:`psyclone.psyir.nodes.Node`]
+
+        :raises TransformationError: if the region contains an EXIT or \
+            CYCLE statement that belongs to a loop (or named construct) \
+            outside the region.
+        :raises TransformationError: if the region contains a branch to a \
+            label outside the region.
+        :raises TransformationError: if the region contains a label that is \
+            the target of a branch outside the region.
+
+        '''
+        do_constructs = (Fortran2003.Block_Nonlabel_Do_Construct,
+                         Fortran2003.Block_Label_Do_Construct)
+        branch_stmts = (Fortran2003.Goto_Stmt, Fortran2003.Computed_Goto_Stmt,
+                        Fortran2003.Arithmetic_If_Stmt)
+
+        def scan(fp_node, names, in_do, info):
+            ''' Recurse down the fparser2 tree of a CodeBlock and record
+            the EXIT/CYCLE statements that are not bound to a construct of
+            the same CodeBlock, the labels that are branched to and the
+            labels that are defined. '''
+            if isinstance(fp_node, BlockBase) and fp_node.content:
+                item = getattr(fp_node.content[0], "item", None)
+                if getattr(item, "name", None):
+                    names = names + [item.name.lower()]
+                if isinstance(fp_node, do_constructs):
+                    in_do = True
+            if isinstance(fp_node, (Fortran2003.Exit_Stmt,
+                                    Fortran2003.Cycle_Stmt)):
+                target = fp_node.items[1]
+                if target is None:
+                    if not in_do:
+                        info["loop_jumps"].append(fp_node)
+                elif str(target).lower() not in names:
+                    info["named_jumps"].append(fp_node)
+            elif isinstance(fp_node, branch_stmts):
+                for label in walk(fp_node, Fortran2003.Label):
+                    info["targets"][int(str(label))] = fp_node
+            label = getattr(getattr(fp_node, "item", None), "label", None)
+            if isinstance(fp_node, StmtBase) and label is not None and \
+               not isinstance(fp_node, Fortran2003.Format_Stmt):
+                info["labels"].add(int(label))
+            for child in fp_node.children:
+                if isinstance(child, Base):
+                    scan(child, names, in_do, info)
+
+        def in_region(node):
+            ''' Whether the node is one of the nodes of the region or
+            inside one of them. '''
+            while node is not None:
+                if any(node is top for top in node_list):
+                    return True
+                node = node.parent
+            return False
+
+        inside = {"loop_jumps": [], "named_jumps": [], "targets": {},
+                  "labels": set()}
+        for top in node_list:
+            for cblock in top.walk(CodeBlock):
+                found = {"loop_jumps": [], "named_jumps": [],
+                         "targets": inside["targets"],
+                         "labels": inside["labels"]}
+                for fp_node in cblock.get_ast_nodes:
+                    scan(fp_node, [], False, found)
+                if found["named_jumps"]:
+                    raise TransformationError(
+                        f"Cannot enclose '{found['named_jumps'][0]}' in a "
+                        f"{self.name} region because the construct it refers "
+                        f"to is outside the region.")
+                if found["loop_jumps"]:
+                    loop = cblock.ancestor((Loop, WhileLoop))
+                    if loop is None or not in_region(loop):
+                        raise TransformationError(
+                            f"Cannot enclose '{found['loop_jumps'][0]}' in a "
+                            f"{self.name} region because the loop it belongs "
+                            f"to is outside the region.")
+
+        for label, stmt in inside["targets"].items():
+            if label not in inside["labels"]:
+                raise TransformationError(
+                    f"Cannot enclose '{stmt}' in a {self.name} region because "
+                    f"it branches to label {label} which is outside the "
+                    f"region.")
+
+        if inside["labels"]:
+            outside = {"loop_jumps": [], "named_jumps": [], "targets": {},
+                       "labels": set()}
+            scope = node_list[0].ancestor(Routine) or node_list[0].root
+            for cblock in scope.walk(CodeBlock):
+                if not in_region(cblock):
+                    for fp_node in cblock.get_ast_nodes:
+                        scan(fp_node, [], False, outside)
+            for label, stmt in outside["targets"].items():
+                if label in inside["labels"]:
+                    raise TransformationError(
+                        f"Cannot create a {self.name} region around the "
+                        f"statement with label {label} because '{stmt}', "
+                        f"which is outside the region, branches to it.")
 
     # ------------------------------------------------------------------------
     def apply(self, nodes, options=None):
